@@ -20,7 +20,7 @@ ASSUMPTIONS = ['virtual time: library processing takes zero time, so retransmiss
                'two requests with identical patterns pending at once are not generated (the library keys timers by pattern)']
 REQUIRED = ['mon.requests', 'mon.retransmissions_expected', 'mon.retransmissions_observed', 'mon.cancelled_by_reply',
             'mon.never_answered_windows', 'mon.reliable_link_cases', 'mon.close_reopen_cases', 'mon.timers_observed',
-            'mon.shared_prefix_cases']
+            'mon.shared_prefix_cases', 'mon.requests_sent_while_the_link_was_being_closed']
 DESC_TIMEOUT = 900
 PORT = 9
 EPS = 1e-9
@@ -35,6 +35,9 @@ def cases(tier, seed):
         out.append({'seed': seed * 1000003 + i, 'kind': kind, 'nreq': rnd.randint(1, 6),
                     'sched': rnd.choice(('rtb', 'random', 'pct')), 'quarter': rnd.randint(0, 11)})
     return out
+
+
+RACER_UID = 199
 
 
 class Responder(simcf.SimCF):
@@ -149,6 +152,23 @@ def run(desc, ctx):
             T0 = reqs[0]['T']
             s.sleep(max(0.0, t_base + reqs[0]['at'] + desc['quarter'] * T0 / 4.0 - s.now))
             ob['close_at'] = s.now
+            racer_th = None
+            if desc['seed'] % 2 == 0 and needs:
+                # another application thread sends a request of its own at the moment the link is being closed
+                go = ds.Event()
+
+                def racer():
+                    go.wait()
+                    pk = CRTPPacket()
+                    pk.set_header(PORT, 1)
+                    pk.data = bytes([251, 252, RACER_UID])
+                    before = ob['reopen_at'] is None
+                    cf.send_packet(pk, expected_reply=(251, 252), timeout=T0)
+                    ob['racer_in_session1'] = before and ob['reopen_at'] is None
+                import threading
+                racer_th = threading.Thread(target=racer)
+                racer_th.start()
+                go.set()
             cf.close_link()
             ob['tx_at_close'] = len(spec.tx)
             ob['after_close_calls'] = len(spec.tx_after_close)
@@ -160,6 +180,8 @@ def run(desc, ctx):
             s.sleep(max(r['T'] for r in reqs) * 3 + 1.0)
         else:
             s.sleep(max(r['T'] for r in reqs) * 22 + 1.0)
+        if kind == 'reopen' and racer_th is not None:
+            racer_th.join()
         ob['t_end'] = s.now
         ob['timers'] = [(t.interval, t.created_at, t.fired_at, t.cancelled_at) for t in getattr(s, 'timers', [])]
         ob['patterns_left'] = len(cf._answer_patterns)
@@ -276,6 +298,10 @@ def run(desc, ctx):
     if kind == 'reopen':
         ctx.count('mon.close_reopen_cases')
         s2 = [t for t in mine_tx if t[1] != ob['session1']]
+        if 'racer_in_session1' in ob:
+            ctx.count('mon.requests_sent_while_the_link_was_being_closed')
+            if not ob['racer_in_session1']:
+                s2 = [t for t in s2 if t[3][-1] != RACER_UID]      # sent after the reopen began: belongs to session 2
         if s2:
             V('retry:request-of-an-earlier-session-transmitted-in-a-later-session',
               {'packets': [(round(t[0] - ob['t_base'], 6), t[3].hex()) for t in s2[:4]],
